@@ -388,7 +388,8 @@ pub(crate) mod verif_local {
         rustc_span::create_session_if_not_set_then(config.edition().into(), |_| {
             let psess = ParseSess::new(config).expect("parse session");
             let provider = SnippetProvider::new(BytePos(0), BytePos(0), Arc::new(String::new()));
-            let mut visitor = FmtVisitor::from_psess(&psess, config, &provider, FormatReport::new());
+            let mut visitor =
+                FmtVisitor::from_psess(&psess, config, &provider, FormatReport::new());
             visitor.block_indent = block_indent;
             visitor.push_str(buffer);
             f(&mut visitor)
